@@ -23,11 +23,16 @@ Budget(t) == IF "weak" \in DOMAIN t.params THEN (IF t.params.weak = "1" THEN 1 E
 ScenOf(t) == [prod |-> IF "prod" \in DOMAIN t.params THEN t.params.prod ELSE "val", ops |-> [i \in Obs |-> OpOf(t, i)],
               weak |-> Budget(t)]
 
+\* an observer that hands its copy to WhenAll (the combinator retires the value from the shared state: copy, or move
+\* when it is provably the last owner) is not modelled at operation level: such executions are judged by the abstract
+\* monitors only, from the start
+Modelled(t) == \A i \in Obs : OpOf(t, i) # "whenall"
+
 TInit ==
   /\ TLCSet(1, {}) /\ TLCSet(2, 1) /\ TLCSet(3, {})
   /\ T[1].e = "begin"
   /\ InitScen(ScenOf(T[1]))
-  /\ l = 2 /\ seen = <<>> /\ drift = FALSE
+  /\ l = 2 /\ seen = <<>> /\ drift = ~Modelled(T[1])
 
 Conform(t) ==
   /\ Step
@@ -52,7 +57,7 @@ TRobs ==
 TDrift ==
   /\ l <= Len(T) /\ T[l].e \in {"op", "robs"}
   /\ drift \/ (T[l].e = "op" /\ ~ENABLED Conform(T[l])) \/ (T[l].e = "robs" /\ ~ENABLED (RootDrain /\ ev'.obs = T[l].obs))
-  /\ drift' = TRUE /\ NoteDrift(l)
+  /\ drift' = TRUE /\ (IF \A i \in Obs : scen.ops[i] # "whenall" THEN NoteDrift(l) ELSE TRUE)
   /\ seen' = See(IF T[l].e = "op" THEN T[l].p ELSE "root", T[l].obs)
   /\ UNCHANGED vars
   /\ l' = l + 1 /\ Progress(l')
@@ -67,7 +72,7 @@ TEnd ==
 TBegin ==
   /\ l <= Len(T) /\ T[l].e = "begin"
   /\ ResetScen(ScenOf(T[l]))
-  /\ seen' = <<>> /\ drift' = FALSE
+  /\ seen' = <<>> /\ drift' = ~Modelled(T[l])
   /\ l' = l + 1 /\ Progress(l')
 
 TNext == TOp \/ TRobs \/ TDrift \/ TEnd \/ TBegin
